@@ -12,6 +12,7 @@ import (
 	"time"
 
 	"github.com/marekgalovic/anndb/index"
+	"github.com/marekgalovic/anndb/index/space"
 	pb "github.com/marekgalovic/anndb/protobuf"
 	"github.com/marekgalovic/anndb/storage"
 
@@ -166,6 +167,43 @@ func runC09(a *args) error {
 					if m.node == faulty && m.err && serr == nil {
 						st.ImplFailures = append(st.ImplFailures, implFailure{Case: len(cases), What: fmt.Sprintf("node %d's result stream failed (%s) and the search still returned success with %d items", faulty, fault, len(res)), Key: "partial-result-on-stream-fault:" + fault, Input: fc})
 					}
+				}
+			}
+			// ground truth where a theorem provides it: every partition here is an insert-only collection; while it holds
+			// at most 2M+1 = 33 items and at most max(ef, k) = max(20, k), its search is exact (C07_exact), so the
+			// dataset search must return exactly the k best scores of everything stored
+			if serr == nil && !replicated { // (a follower replica may still be applying the last inserts)
+				perPart := map[int]int{}
+				entryDs := d.c.nodes[entry].datasets[d.id]
+				for id := range d.items {
+					perPart[entryDs.VerifOwnerIndex(id)]++
+				}
+				within := true
+				for _, n := range perPart {
+					if n > 33 || (n > 20 && n > k) {
+						within = false
+					}
+				}
+				if within {
+					sp := space.NewEuclidean()
+					var truth []uint32
+					for _, v := range d.items {
+						truth = append(truth, math.Float32bits(sp.Distance(q, v)))
+					}
+					sort.Slice(truth, func(a, b int) bool { return truth[a] < truth[b] })
+					if len(truth) > k {
+						truth = truth[:k]
+					}
+					var got []uint32
+					for _, it := range res {
+						got = append(got, math.Float32bits(it.Score))
+					}
+					st.count("ground-truth:checked")
+					if fmt.Sprint(got) != fmt.Sprint(truth) {
+						st.ImplFailures = append(st.ImplFailures, implFailure{Case: len(cases), What: fmt.Sprintf("dataset of %d items in %d partitions (each within the exactness bound), k=%d: the search returned %d items whose scores are not the %d best of everything stored", len(d.items), len(d.meta.Partitions), k, len(got), len(truth)), Key: "not-topk-of-dataset", Input: fc})
+					}
+				} else {
+					st.count("ground-truth:outside-bound")
 				}
 			}
 			// a successful search has consulted every partition of the dataset exactly once
